@@ -207,11 +207,32 @@ func runWorkload(c *wk.Ctx, i int) {
 		}
 	}
 	c.Count("manifest_writes_in_logs", int64(len(mw)))
-	if mb := c.Pick(40, 800); len(mw) > mb {
-		r.Shuffle(len(mw), func(a, b int) { mw[a], mw[b] = mw[b], mw[a] })
-		mw = mw[:mb]
-	}
+	// boundaries that fall between two pieces of one record (the next operation is another write to the
+	// manifest, no Sync in between) are the interesting ones and get a budget of their own
+	var between, other []int64
 	for _, k := range mw {
+		if k < n && im.Op(k).Kind == vstor.OpWrite && im.Op(k).Fd.Type == storage.TypeManifest {
+			between = append(between, k)
+		} else {
+			other = append(other, k)
+		}
+	}
+	c.Count("manifest_records_written_in_pieces", int64(len(between)))
+	if mb := c.Pick(60, 400); len(between) > mb {
+		r.Shuffle(len(between), func(a, b int) { between[a], between[b] = between[b], between[a] })
+		between = between[:mb]
+	}
+	if mb := c.Pick(40, 800); len(other) > mb {
+		r.Shuffle(len(other), func(a, b int) { other[a], other[b] = other[b], other[a] })
+		other = other[:mb]
+	}
+	for _, k := range between {
+		if _, ok := points[k]; !ok {
+			points[k] = "between-pieces-of-a-manifest-record"
+			ks = append(ks, k)
+		}
+	}
+	for _, k := range other {
 		if _, ok := points[k]; !ok {
 			points[k] = "after:write:manifest"
 			ks = append(ks, k)
